@@ -162,6 +162,8 @@ pub struct Program {
     pub post: Vec<Op>,
     /// informational: what the run is expected to show when replayed
     pub expect: Option<String>,
+    /// consequence probing: count disagreements are remembered, not fatal (see rt::count_violation)
+    pub defer_counts: bool,
 }
 
 pub const NS: usize = 6; // slots per thread
@@ -206,6 +208,9 @@ impl Program {
         if let Some(e) = &self.expect {
             s.push_str(&format!("expect {}\n", e));
         }
+        if self.defer_counts {
+            s.push_str("defer-counts\n");
+        }
         s.push_str("setup\n");
         for o in &self.setup {
             s.push_str(&format!("  {}\n", o.text()));
@@ -239,6 +244,7 @@ impl Program {
             par: vec![],
             post: vec![],
             expect: None,
+            defer_counts: false,
         };
         #[derive(PartialEq)]
         enum Sec {
@@ -298,6 +304,7 @@ impl Program {
                     _ => return Err(err("bad choices")),
                 },
                 "expect" => p.expect = Some(line["expect".len()..].trim().to_string()),
+                "defer-counts" => p.defer_counts = true,
                 "setup" => sec = Sec::Setup,
                 "par" => {
                     let t: usize = w.next().and_then(|x| x.parse().ok()).ok_or_else(|| err("bad par"))?;
